@@ -278,8 +278,57 @@ def w_bits(task):
     return out
 
 
+def w_wide(ks):
+    """values next to powers of two far beyond the machine word and the double-precision mantissa: minimal shapes of constants and ranges"""
+    from amaranth.hdl import Const, Shape, Signal
+    out = {"cov": {"evaluations": 0, "distinct_nontrivial": 0, "wide_values": 0}, "samples": [], "violations": []}
+
+    def ref_bits(n):
+        # width of the narrowest shape holding n: unsigned for n >= 0, two's complement otherwise
+        if n >= 0:
+            w = 0
+            while n >= (1 << w):
+                w += 1
+            return max(w, 1) if n == 0 else w, False
+        w = 1
+        while not (-(1 << (w - 1)) <= n):
+            w += 1
+        return w, True
+    for k in ks:
+        for d in (-2, -1, 0, 1, 2):
+            for sign in (1, -1):
+                n = sign * ((1 << k) + d)
+                out["cov"]["wide_values"] += 1
+                out["cov"]["evaluations"] += 3
+                out["cov"]["distinct_nontrivial"] += 1
+                try:
+                    w, sg = ref_bits(n)
+                    c = Const(n)
+                    if n == 0:
+                        pass
+                    elif (len(c), c.shape().signed, c.value) != (w, sg, n):
+                        _viol(out, f"wide-const({sign}*(2**{k}{d:+d}))", f"Const({n}) has shape {c.shape()!r} and value {c.value}; the narrowest shape holding it is "
+                              f"{'signed' if sg else 'unsigned'}({w})", {"kind": "wide", "k": k})
+                    if n > 0:
+                        # range(n + 1) contains 0..n; range(-n, 1) contains -n..0
+                        sh = Shape.cast(range(n + 1))
+                        if (sh.width, sh.signed) != (w, False):
+                            _viol(out, f"wide-range(2**{k}{d:+d}+1)", f"Shape.cast(range({n}+1)) = {sh!r}, want unsigned({w})", {"kind": "wide", "k": k})
+                        sh = Shape.cast(range(-n, 1))
+                        wn, _ = ref_bits(-n)
+                        if (sh.width, sh.signed) != (wn, True):
+                            _viol(out, f"wide-range(-(2**{k}{d:+d}),1)", f"Shape.cast(range(-{n}, 1)) = {sh!r}, want signed({wn})", {"kind": "wide", "k": k})
+                        s_ = Signal(range(n + 1), init=n)
+                        if s_.init != n:
+                            _viol(out, f"wide-init(2**{k}{d:+d})", f"Signal(range({n}+1), init={n}).init = {s_.init}", {"kind": "wide", "k": k})
+                except Exception as ex:
+                    _viol(out, f"wide-raises({sign}*(2**{k}{d:+d}))", f"constant / range shape / range-shaped initial value for {n}: {type(ex).__name__}: {ex}",
+                          {"kind": "wide", "k": k})
+    return out
+
+
 WORKERS = {"ranges": w_ranges, "const": w_const, "rangeinit": w_range_init, "enums": w_enums,
-           "constcast": w_constcast, "bits": w_bits}
+           "constcast": w_constcast, "bits": w_bits, "wide": w_wide}
 
 
 def _dispatch(t):
@@ -314,6 +363,14 @@ def run(rep):
     N = rep.pick(1 << 12, 1 << 17)
     for lo in range(-N, N + 1, 2048):
         tasks.append(("bits", (lo, min(lo + 2048, N + 1))))
+    # bit-count helpers and minimal shapes next to every power of two up to 2**K (far beyond 64 bits and the 53-bit float mantissa)
+    K = rep.pick(140, 520)
+    for k in range(12, K):
+        for sign in (1, -1):
+            c = sign * (1 << k)
+            tasks.append(("bits", (c - 3, c + 4)))
+    for ch in chunks(range(2, K), 8):
+        tasks.append(("wide", list(ch)))
     tasks = rotate(tasks, rep.seed)
     per_kind = {}
     for part in pmap(_dispatch_tagged, tasks, rep.procs):
@@ -323,7 +380,8 @@ def run(rep):
     rep.setcov("by_family", per_kind)
     rep.setcov("rule", "every range(a,b,s) |a|,|b|<=%d |s|<=%d; every Const/Signal init/memory row (v, shape) |v|<=%d width<=%d; "
                "every plain/IntEnum/lib.enum member tuple (ordered) of size<=3 over -9..16; every Const/Cat/Slice term of depth<=2; "
-               "range-shaped Signal init acceptance; bits_for/ceil_log2 for |n|<=%d. non-trivial: ranges with >=2 elements, "
+               "range-shaped Signal init acceptance; bits_for/ceil_log2 for |n|<=%d and within 3 of every power of two up to 2**K; Const / range shapes / range-shaped initial "
+               "values within 2 of every power of two up to 2**K. non-trivial: ranges with >=2 elements, "
                "constants that actually wrap, enums with >=2 members, non-leaf constant terms, every helper argument" % (B, S, V, W, N))
     rep.setcov("exhaustive", True)
     rep.sample({"range": [-3, 5, 2], "shape": list(min_shape(range(-3, 5, 2)))})
@@ -356,6 +414,8 @@ def replay(payload):
             return tuple(tup(x) if isinstance(x, list) else x for x in t)
         out = w_constcast([tup(payload["term"])])
         return [v["what"] for v in out["violations"]]
+    if kind == "wide":
+        return [v["what"] for v in w_wide([payload["k"]])["violations"]]
     if kind in ("ceil_log2", "bits_for", "exact_log2"):
         out = w_bits((payload["n"], payload["n"] + 1))
         return [v["what"] for v in out["violations"]]
